@@ -95,6 +95,7 @@ class TraceStack:
     def _clone(self):
         new_tracing_stack = TraceStack(self._manager)
         new_tracing_stack.__dict__ = dict(self.__dict__)
+        new_tracing_stack._stack = []
         return new_tracing_stack
 
     def pop(self) -> "TraceStack":
